@@ -1,16 +1,17 @@
 #!/bin/bash
 # try_mutant.sh <mutant dir with patch.diff, demo.py> <Cnn> [tier]
-# Confirms the seeded change (demo passes clean / fails patched, test suite passes patched) and runs the check.
+# Confirms a seeded change in a scratch worktree of /repo HEAD (so that /repo itself and any soak using it stay undisturbed):
+# demo passes clean / fails patched, unedited test suite passes patched; then runs the check against that scratch tree
+# (VERIF_REPO_ROOT) - equivalent to `git -C /repo apply`, run, `git -C /repo checkout -- .`.
 set -u
 D=$1; P=$2; TIER=${3:-quick}
-cd /repo || exit 9
-if [ -n "$(git status --porcelain)" ]; then echo "repo not clean"; exit 9; fi
-echo "== demo on clean tree"; timeout 300 /venv/bin/python $D/demo.py /repo >/tmp/demo_clean.log 2>&1; echo "rc=$?"
-git apply $D/patch.diff || { echo "patch does not apply"; exit 9; }
-echo "== test suite with patch"; /venv/bin/python -m pytest -q -p no:cacheprovider 2>&1 | tail -1
-echo "== demo with patch"; timeout 300 /venv/bin/python $D/demo.py /repo >/tmp/demo_patched.log 2>&1; echo "rc=$?"; tail -2 /tmp/demo_patched.log
+W=/tmp/eval_$$
+git -C /repo worktree add -q --detach $W HEAD || exit 9
+trap "git -C /repo worktree remove --force $W" EXIT
+echo "== demo on clean tree"; timeout 300 /venv/bin/python $D/demo.py $W >/tmp/demo_clean.log 2>&1; echo "rc=$?"
+git -C $W apply $D/patch.diff || { echo "patch does not apply"; exit 9; }
+echo "== test suite with patch"; (cd $W && /venv/bin/python -m pytest -q -p no:cacheprovider 2>&1 | tail -1)
+echo "== demo with patch"; timeout 300 /venv/bin/python $D/demo.py $W >/tmp/demo_patched.log 2>&1; echo "rc=$?"; tail -2 /tmp/demo_patched.log
 echo "== check $P ($TIER)"
-cd /verif && timeout 3000 /venv/bin/python vcheck.py $P --tier $TIER 2>&1 | grep -E "^violation|^  |VIOLATION|KNOWN|HARNESS|^C[0-9]+:" | cut -c1-400 | head -12
+cd /verif && VERIF_REPO_ROOT=$W timeout 3000 /venv/bin/python vcheck.py $P --tier $TIER 2>&1 | grep -E "^violation|^  |VIOLATION|KNOWN|HARNESS|^C[0-9]+:" | cut -c1-400 | head -12
 echo "check rc=${PIPESTATUS[0]}"
-git -C /repo checkout -- .
-git -C /repo status --porcelain
